@@ -2,6 +2,10 @@
 # ./run.sh [quick|thorough]: generate, build (offline), explore; prints one JSON line on stdout.
 cd "$(dirname "$0")" || exit 2
 export CARGO_NET_OFFLINE=true
+# one generation / build at a time (C04 and C16 both use this harness)
+exec 8>.run.lock
+flock 8
 ./gen.sh >gen.log 2>&1 || { echo '{"error":"generation failed"}'; exit 2; }
 cargo build --release --offline -q 2>build.log || { echo '{"error":"build of the shuttle-mapped copy failed (a primitive shuttle does not model?)"}'; exit 2; }
+flock -u 8
 exec target/release/c16x "${1:-quick}"
